@@ -17,7 +17,7 @@ pub mod model;
 pub mod refs;
 
 use crate::engine::*;
-use crate::gen::{byte, chance, pick, range, u16_, u32_};
+use crate::gen::{byte, pick, range, u16_, u32_};
 use crate::{vensure, vfail};
 use arbitrary::Unstructured;
 use bytes::Bytes;
@@ -87,20 +87,183 @@ fn to_record(z: &Zone, r: &ZRec) -> R {
     Record::new(to_name(&r.owner), Class::from_int(z.class), Ttl::from_secs(r.ttl), data)
 }
 
-/// Builds the sorted collection through one of the public ways.
-fn build_sorted(z: &Zone, how: usize) -> SortedRecords<N, D> {
+/// How the zone gets into the `SortedRecords` collection (a generated
+/// dimension of both chain sub-checks). Decoded from the one "how" byte the
+/// sub-checks always read (0 = `From<Vec>`, as before) plus, for the
+/// split points, batch order and interleaving of the multi-batch mode, a
+/// xorshift generator seeded with a hash of the whole input (so it is still a
+/// pure function of `data` and reads nothing more from it: older replay
+/// files decode to the same zone, configuration and probes).
+#[derive(Clone, Debug, Hash)]
+enum Load {
+    FromVec,
+    FromIter,
+    Inserts,
+    /// record indices per step; step 0 fills the empty collection (by
+    /// `first`), every later step is one `extend()` call or, for a
+    /// single-record step marked so, one `insert()` call.
+    Batches { first: u8, steps: Vec<(Vec<usize>, bool)> },
+}
+
+struct XorShift(u64);
+impl XorShift {
+    fn next(&mut self) -> u64 {
+        let mut x = self.0;
+        x ^= x << 13;
+        x ^= x >> 7;
+        x ^= x << 17;
+        self.0 = x;
+        x.wrapping_mul(0x2545F4914F6CDD1D)
+    }
+    fn below(&mut self, n: usize) -> usize {
+        if n <= 1 { 0 } else { ((self.next() >> 33) as usize) % n }
+    }
+}
+
+/// Reference sort key of a record: canonical owner, then type.
+fn rec_key(r: &ZRec) -> (Canon, u16) {
+    (Canon::of(&r.owner), r.rtype)
+}
+
+fn plan_load(z: &Zone, how_b: u8, data: &[u8]) -> Load {
+    match how_b {
+        0..=29 => return Load::FromVec,
+        30..=59 => return Load::FromIter,
+        60..=84 => return Load::Inserts,
+        _ => {}
+    }
+    let n = z.recs.len();
+    let mut rng = XorShift(fnv(&data) | 1);
+    // order in which a loader delivers the records: generation order (which
+    // is unsorted already), or a shuffle of it
+    let mut order: Vec<usize> = (0..n).collect();
+    if how_b % 2 == 1 {
+        for i in (1..n).rev() {
+            order.swap(i, rng.below(i + 1));
+        }
+    }
+    // 2..=4 batches with generated split points (empty batches are allowed:
+    // extend() with nothing is a legal call)
+    let nb = 2 + rng.below(3);
+    let mut cuts: Vec<usize> = (0..nb - 1).map(|_| rng.below(n + 1)).collect();
+    cuts.sort();
+    let mut steps: Vec<(Vec<usize>, bool)> = vec![];
+    let mut lo = 0;
+    for c in cuts.iter().copied().chain(std::iter::once(n)) {
+        steps.push((order[lo..c].to_vec(), false));
+        lo = c;
+    }
+    // Two thirds of the multi-batch plans are steered towards the shape
+    // "a later batch straddles the stored tail and its first record sorts
+    // after the tail": make sure the earlier batches hold a record that
+    // sorts in the middle of the later batch, then bring a record that sorts
+    // after everything stored so far to the front of that batch.
+    if how_b % 3 != 0 {
+        for b in 1..steps.len() {
+            let stored_max = steps[..b].iter().flat_map(|s| s.0.iter()).map(|i| rec_key(&z.recs[*i])).max();
+            let Some(tail) = stored_max else { continue };
+            let batch = &mut steps[b].0;
+            if let Some(pos) = batch.iter().position(|i| rec_key(&z.recs[*i]) > tail) {
+                batch.swap(0, pos);
+            }
+        }
+    }
+    // now and then a single-record step goes through insert()
+    for s in steps.iter_mut().skip(1) {
+        if s.0.len() == 1 && rng.below(2) == 0 {
+            s.1 = true;
+        }
+    }
+    Load::Batches { first: (rng.below(3)) as u8, steps }
+}
+
+/// Classes of a load plan (computed with the reference order only).
+fn load_classes(z: &Zone, l: &Load, ctx: &mut Ctx) {
+    match l {
+        Load::FromVec => ctx.class("load:from-vec"),
+        Load::FromIter => ctx.class("load:from-iter"),
+        Load::Inserts => ctx.class("load:insert-sequence"),
+        Load::Batches { steps, .. } => {
+            ctx.class("load:multi-batch");
+            let mut stored: Option<(Canon, u16)> = None;
+            for (b, (idx, single)) in steps.iter().enumerate() {
+                let keys: Vec<(Canon, u16)> = idx.iter().map(|i| rec_key(&z.recs[*i])).collect();
+                if b > 0 && !*single {
+                    if let (Some(tail), Some(first)) = (&stored, keys.first()) {
+                        let before = keys.iter().any(|k| k < tail);
+                        let after = keys.iter().any(|k| k > tail);
+                        if before && after {
+                            ctx.class("load:later-batch-straddles-stored-tail");
+                            if first > tail {
+                                ctx.class("load:straddling-batch-starts-after-stored-tail");
+                            }
+                        }
+                        if !before && after {
+                            ctx.class("load:later-batch-entirely-after-stored-tail");
+                        }
+                        if keys.windows(2).any(|w| w[0] > w[1]) {
+                            ctx.class("load:later-batch-unsorted-inside");
+                        }
+                    }
+                }
+                if b > 0 && *single {
+                    ctx.class("load:insert-between-batches");
+                }
+                for k in keys {
+                    if stored.as_ref().map(|s| k > *s).unwrap_or(true) {
+                        stored = Some(k);
+                    }
+                }
+            }
+        }
+    }
+}
+
+/// Builds the sorted collection the way the plan says.
+fn build_sorted(z: &Zone, l: &Load) -> SortedRecords<N, D> {
     let recs: Vec<R> = z.recs.iter().map(|r| to_record(z, r)).collect();
-    match how {
-        0 => SortedRecords::<N, D, DefaultSorter>::from(recs),
-        1 => recs.into_iter().collect(),
-        _ => {
+    match l {
+        Load::FromVec => SortedRecords::<N, D, DefaultSorter>::from(recs),
+        Load::FromIter => recs.into_iter().collect(),
+        Load::Inserts => {
             let mut s = SortedRecords::<N, D, DefaultSorter>::new();
             for r in recs {
                 let _ = s.insert(r); // Err = exact duplicate
             }
             s
         }
+        Load::Batches { first, steps } => {
+            let take = |idx: &Vec<usize>| -> Vec<R> { idx.iter().map(|i| recs[*i].clone()).collect() };
+            let b0 = take(&steps[0].0);
+            let mut s: SortedRecords<N, D> = match first {
+                0 => {
+                    let mut s = SortedRecords::<N, D, DefaultSorter>::new();
+                    s.extend(b0);
+                    s
+                }
+                1 => b0.into_iter().collect(),
+                _ => SortedRecords::<N, D, DefaultSorter>::from(b0),
+            };
+            for (idx, single) in &steps[1..] {
+                let b = take(idx);
+                if *single {
+                    for r in b {
+                        let _ = s.insert(r);
+                    }
+                } else {
+                    s.extend(b);
+                }
+            }
+            s
+        }
     }
+}
+
+/// Self-test switch (sensitivity runs only): skip the direct checks on the
+/// collection so that a breakage of `SortedRecords` has to be caught by the
+/// chain oracle.
+fn skip_prestage() -> bool {
+    std::env::var_os("VERIF_C13_SKIP_PRESTAGE").is_some()
 }
 
 /// `SortedRecords` must hold the generated records in canonical owner order,
@@ -377,18 +540,22 @@ fn run_nsec(data: &[u8], ctx: &mut Ctx) -> CaseResult {
     // configuration first, so that it does not starve when the zone uses up
     // the input; all-zero input = default configuration
     let dnskey = byte(&mut u) % 3 != 1;
-    let how = pick(&mut u, 3);
+    let how_b = byte(&mut u);
     let via_refs = byte(&mut u) % 3 == 1;
     let apex_case = byte(&mut u) % 4 == 1;
     let nprobes = range(&mut u, 5, 24);
     let z = gen_zone(&mut u, true);
     let a = analyse(&z);
+    let how = plan_load(&z, how_b, data);
+    load_classes(&z, &how, ctx);
     let interesting = zone_classes(&z, &a, ctx);
     ctx.class(if dnskey { "cfg:assume-dnskey" } else { "cfg:no-dnskey" });
     ctx.sample(|| format!("dnskey={dnskey} {}", show_zone(&z)));
 
-    let sr = build_sorted(&z, how);
-    check_sorted(&z, &a, &sr)?;
+    let sr = build_sorted(&z, &how);
+    if !skip_prestage() {
+        check_sorted(&z, &a, &sr)?;
+    }
     let apex_l: Labels = if apex_case { z.apex.iter().map(|l| l.iter().map(|c| if c.is_ascii_alphabetic() { c ^ 0x20 } else { *c }).collect()).collect() } else { z.apex.clone() };
     let apex = to_name(&apex_l);
     let cfg = if dnskey { GenerateNsecConfig::new() } else { GenerateNsecConfig::new().without_assuming_dnskeys_will_be_added() };
@@ -478,7 +645,7 @@ fn run_nsec(data: &[u8], ctx: &mut Ctx) -> CaseResult {
         ctx.class(format!("nsec-{c}"));
     }
     if interesting {
-        ctx.nontrivial(&(&z, dnskey, how, via_refs));
+        ctx.nontrivial(&(&z, dnskey, &how, via_refs));
     }
     Ok(())
 }
@@ -525,12 +692,14 @@ fn gen_n3cfg(u: &mut Unstructured) -> N3Cfg {
 fn run_nsec3(data: &[u8], ctx: &mut Ctx) -> CaseResult {
     let mut u = Unstructured::new(data);
     let c = gen_n3cfg(&mut u);
-    let how = pick(&mut u, 3);
+    let how_b = byte(&mut u);
     let via_refs = byte(&mut u) % 3 == 1;
     let apex_case = byte(&mut u) % 4 == 1;
     let nprobes = range(&mut u, 5, 24);
     let z = gen_zone(&mut u, false);
     let a = analyse(&z);
+    let how = plan_load(&z, how_b, data);
+    load_classes(&z, &how, ctx);
     let interesting = zone_classes(&z, &a, ctx);
     ctx.class(if c.opt_out { if c.exclude { "cfg:opt-out-excluding" } else { "cfg:opt-out-including" } } else { "cfg:no-opt-out" });
     ctx.class(if c.dnskey { "cfg:assume-dnskey" } else { "cfg:no-dnskey" });
@@ -551,8 +720,10 @@ fn run_nsec3(data: &[u8], ctx: &mut Ctx) -> CaseResult {
     });
     ctx.sample(|| format!("salt_len={} it={} optout={} exclude={} dnskey={} {}", c.salt.len(), c.iterations, c.opt_out, c.exclude, c.dnskey, show_zone(&z)));
 
-    let sr = build_sorted(&z, how);
-    check_sorted(&z, &a, &sr)?;
+    let sr = build_sorted(&z, &how);
+    if !skip_prestage() {
+        check_sorted(&z, &a, &sr)?;
+    }
     let apex_l: Labels = if apex_case { z.apex.iter().map(|l| l.iter().map(|c| if c.is_ascii_alphabetic() { c ^ 0x20 } else { *c }).collect()).collect() } else { z.apex.clone() };
     let apex = to_name(&apex_l);
     let params = Nsec3param::new(Nsec3HashAlgorithm::SHA1, 0, c.iterations, Nsec3Salt::from_octets(Bytes::from(c.salt.clone())).expect("salt <= 255"));
@@ -728,7 +899,7 @@ fn run_nsec3(data: &[u8], ctx: &mut Ctx) -> CaseResult {
         ctx.class(format!("nsec3-{c}"));
     }
     if interesting {
-        ctx.nontrivial(&(&z, &c.salt, c.iterations, c.opt_out, c.exclude, c.dnskey, how, via_refs));
+        ctx.nontrivial(&(&z, &c.salt, c.iterations, c.opt_out, c.exclude, c.dnskey, &how, via_refs));
     }
     Ok(())
 }
@@ -875,6 +1046,13 @@ fn run_hash(data: &[u8], ctx: &mut Ctx) -> CaseResult {
 
 fn health(c: &BTreeMap<String, u64>, _thorough: bool) -> Result<(), String> {
     for k in [
+        "load:from-vec",
+        "load:from-iter",
+        "load:insert-sequence",
+        "load:multi-batch",
+        "load:later-batch-straddles-stored-tail",
+        "load:straddling-batch-starts-after-stored-tail",
+        "load:later-batch-unsorted-inside",
         "zone:apex-only",
         "zone:signed-delegation",
         "zone:unsigned-delegation",
